@@ -6,7 +6,7 @@ import json, os, shutil, sys
 out, pid, tag = sys.argv[1:4]
 only = [int(x) for x in sys.argv[4:]]
 notes = json.load(open(out + '/notes.json'))
-rnd = {'r2': 2, 'r3': 3}.get(tag, 1)
+rnd = int(tag[1:]) if tag[:1] == 'r' and tag[1:].isdigit() else 1
 for n in notes:
     k = n['n']
     if only and k not in only:
